@@ -7,3 +7,9 @@ package geom
 func VerifSolve3(coeff [4]float64) []float64 {
 	return solve3(coeff[:])
 }
+
+// VerifCurveContained exposes the fitter's containment test: whether the cubic with the given control points
+// is accepted as lying inside the polygon obtained by merging the rectangles.
+func VerifCurveContained(ctrl [4]P, rects []Rect) bool {
+	return curveContained(ctrlp{ctrl[0], ctrl[1], ctrl[2], ctrl[3]}, MergeRects(rects).Sides())
+}
